@@ -43,6 +43,7 @@ RULE = (
     "0-3 ms per step) and on sequential reference copies; non-trivial = at least 5 steps were compared slice by "
     "slice AND at least one automatic episode end was compared (for N>=2: in two different sub-envs at different "
     "steps), or the real code raised; distinct = distinct case descriptions"
+    " Added: 40 % of the scenarios use sub-environments with a random stream of their own that reset(seed=) seeds; a per-episode draw from it enters the rewards"
 )
 ASSUMPTIONS = [
     "sub-environments are scripted deterministic ParallelEnvs; real PettingZoo games are not driven",
